@@ -262,7 +262,9 @@ def minima_encoding(rep, ex: Explorer):
                             body = F.subst_any(g[5], {g[2]: ("var", "_s")})
                             if body == F.rel(F.lin_term("m"), "<", F.lin_term(("sum", ("var", "_s")))):
                                 ok_att = True
-                    elif f[0] == "big" and f[1] == "or" and f[3] == S:
+                    if f[0] == "or" and len(f[1]) == 1:
+                        f = f[1][0]
+                    if f[0] == "big" and f[1] == "or" and f[3] == S:
                         body = F.subst_any(f[5], {f[2]: ("var", "_s")})
                         if body == F.rel(F.lin_term("m"), ">=", F.lin_term(("sum", ("var", "_s")))):
                             ok_att = True
@@ -270,6 +272,62 @@ def minima_encoding(rep, ex: Explorer):
         rep.check(ok_le, "C.relations", site, "lower bound", "m ≤ s for every sum s", extracted=got, required="∀s∈S: m ≤ s", function=site)
         rep.check(ok_att, "C.relations", site, "attained", "m is attained: not every sum is strictly larger", extracted=got, required="¬∀s∈S: m < s", function=site)
     rep.floor("minima_encoding paths", n, 1)
+
+
+def summation(rep, ex: Explorer):
+    """C.relations on makeSummation: every correction set S of index i contributes exactly one summand Σ_{j∈S} η_j to the
+    sums of index i (0 for the empty set), η named by the member's key."""
+    qual = f"{MOD}.makeSummation"
+    site = fn_label(ex.prog, qual)
+
+    def setup(I):
+        b = I.fresh_var("n")
+        d = I.alloc(HDict(each=[("each", b, KEYS_D, PTRUE, ElemV(b, "key"), ElemV(("mins", b), "coll", "set", "key"))]))
+        return [d], {}
+
+    paths = ex.run(qual, setup, summaries=dict(wrappers.SUMMARIES), key="makesum")
+    n = 0
+    for p in paths:
+        if p.outcome[0] != "return":
+            continue
+        d = p.state.heap.get(p.outcome[1].oid) if isinstance(p.outcome[1], Ref) else None
+        ok_shape = isinstance(d, HDict) and not d.entries and not d.sym and len(d.each) == 1 and d.each[0][2] == KEYS_D and d.each[0][3] == PTRUE \
+            and isinstance(d.each[0][4], ElemV) and d.each[0][4].var == d.each[0][1]
+        rep.check(ok_shape, "C.relations", site, "sums per index", "every index of the minima gets its own list of sums, under the same index", extracted=repr(p.outcome[1])[:80], required="{i: [...] for i in minima}", function=site)
+        if not ok_shape:
+            continue
+        ib = d.each[0][1]
+        vw = view(p.state, d.each[0][5])
+        segs = list(vw[1]) if isinstance(vw, tuple) and vw[0] == "list" else []
+        n += 1
+        for empty in (True, False):
+            app = []
+            for sg in segs:
+                if sg[0] != "each" or sg[2] != ("members", ("mins", ib)):
+                    app.append(("other", sg))
+                    continue
+                g = sg[3]
+                sb = sg[1]
+                if g == PTRUE or (g == ("empty", sb) and empty) or (g == ("not", ("empty", sb)) and not empty):
+                    app.append(("sum", sb, sg[4]))
+                elif g in (("empty", sb), ("not", ("empty", sb))):
+                    continue
+                else:
+                    app.append(("other", sg))
+            case = "empty correction set" if empty else "non-empty correction set"
+            ok1 = len(app) == 1 and app[0][0] == "sum"
+            rep.check(ok1, "C.relations", site, f"one summand per correction set ({case})", "every correction set contributes exactly one summand", extracted=f"{len(app)} item(s)", required="1", function=site)
+            if not ok1:
+                continue
+            _, sb, val = app[0]
+            want_sum = ((((("bigsum", ("var", "_s"), ("members", sb), PTRUE, (((("isym", ("name", ("eta_", ("elem", ("var", "_s"), "key")))), 1),), 0)), 1),), 0))
+            if empty:
+                okv = isinstance(val, LinV) and (val.lin == ((), 0) or val.lin == want_sum)
+                rep.check(okv, "C.relations", site, "summand of the empty set", "the empty correction set costs 0", extracted=repr(val)[:120], required="0", function=site)
+            else:
+                okv = isinstance(val, LinV) and val.lin == want_sum
+                rep.check(okv, "C.relations", site, "summand of a correction set", "a correction set S costs Σ_{j∈S} η_j, η named by the member's key", extracted=repr(val)[:160], required="Σ_{j∈S} eta_j", function=site)
+    rep.floor("makeSummation paths", n, 1)
 
 
 def encoding_relation(rep, ex: Explorer, cls=CI):
